@@ -478,8 +478,10 @@ Fixpoint jtop (fuel : nat) (G : list var) (items : list stmt) (s : bstate) (defs
       end
   end.
 
-(* the whole program from the initial converter state; G: every variable of the program that is global or used at top level *)
+(* every variable of the program that is global or used at top level *)
+Definition prog_vars (body : list stmt) : list var :=
+  stmts_vars (filter (fun st => match st with SFunc _ _ _ _ _ => false | _ => true end) body) ++ filter v_global (stmts_vars body).
+
+(* the whole program from the converter's initial state *)
 Definition jprogram (fuel : nat) (body : list stmt) : option bytes :=
-  let tops := stmts_vars (filter (fun st => match st with SFunc _ _ _ _ _ => false | _ => true end) body) in
-  let G := tops ++ filter v_global (stmts_vars body) in
-  jtop fuel G body b_init [] (fun _ => None) [].
+  jtop fuel (prog_vars body) body (cv_program_start bstate atom bash_conv b_init) [] (fun _ => None) [].
